@@ -4,6 +4,7 @@ const A = require('../lib/astmon')
 const { plan, jobs } = require('../lib/structwork')
 const { rewriteJobs, kind } = require('../lib/pipeline')
 const { hashStr, clip } = require('../lib/util')
+const SM = require('../lib/scopemon')
 
 // returns {status, violations:[], stats}
 function validate (job, resp, prefix) {
@@ -20,6 +21,11 @@ function validate (job, resp, prefix) {
   const kindOut = a.sourceType === 'module'
   try { b = A.parse(outCode, { module: kindOut }) } catch (e) { return { status: 'output-unparsable', detail: e.message, violations: [] } } // C08 reports this
   const E = A.makeEraser(prefix)
+  // "each injected temporary replaced at its use by the expression assigned to it": the replacement is only well defined when
+  // ONE assignment reaches the use. The eraser works inside out (a nested injected sequence disappears before the enclosing one
+  // is looked at), so a temporary that a nested sequence assigns again before the enclosing sequence reads it would be erased with
+  // the OUTER value while the value that flows at run time is the inner one: the flow analysis of the raw output decides that first.
+  const flow = SM.analyze(A.parse(outCode, { module: kindOut }), E.tempRe).problems /* on a parse of its own: the analysis marks nodes */.filter(p => p.kind === 'temp-clobbered-while-live' || p.kind === 'temp-read-before-write' || p.kind === 'temp-read-not-dominated-by-write')
   b = E.erase(b)
   const dup = A.foldDuplicatedTargets(b)
   a = A.normalize(a); b = A.normalize(b)
@@ -29,6 +35,9 @@ function validate (job, resp, prefix) {
   const violations = []
   for (const d of dup) {
     violations.push({ sig: `compound-assign-target-duplicated:${d.kind}`, what: `T += E with a non-simple target is emitted as T = T + E: ${d.kind} appears twice in the output (${job.meta.sigBase})`, witness: { code: job.code, config: job.config, cfgName: job.cfgName, meta: job.meta, finding: d } })
+  }
+  if (flow.length) {
+    violations.push({ sig: (job.meta.sigBase === 'random' ? 'random' : job.meta.sigBase) + ':temporary-flow', what: `erasing is not well defined: temporary ${flow[0].name}: ${flow[0].kind} - the expression that reaches its use at run time is not the one the enclosing sequence assigned (replacing the use by it does not give the input)`, witness: { code: job.code, config: job.config, cfgName: job.cfgName, meta: job.meta, problem: flow[0], output: clip(outCode, 6000) } })
   }
   if (diffs.length || left.length) {
     const nestedOpt = /ConditionalExpression|ChainExpression|SequenceExpression/.test(diffs.join(' ')) && /\?\./.test(job.code)
@@ -44,7 +53,7 @@ function validate (job, resp, prefix) {
 module.exports = {
   id: 'C02',
   level: 'translation_validation',
-  rule: 'each accepted, modified input is re-parsed (input and raw output) with acorn 8.16; the eraser undoes exactly the shapes the property enumerates (prologue, injected let, temp sequences, hook calls, .call re-dispatch, spread materialisation, optional-chain guards, arrow-body blocks) and the result must equal the input tree exactly, modulo parentheses, literal spelling, x=>E == x=>{return E}, T+=E == T=T+E for a simple T, L.m.call(L,..) == L.m(..) for a literal L. distinct_nontrivial = distinct inputs with >= 1 erased hook site. Workload additions: corpus files with enabled operations spliced onto randomly chosen expression nodes (25 wrappers x every expression slot; only texts V8 still compiles), the syntax zoo with LF/CRLF/CR line endings, a CRLF slice of the corpus.',
+  rule: 'each accepted, modified input is re-parsed (input and raw output) with acorn 8.16; the eraser undoes exactly the shapes the property enumerates (prologue, injected let, temp sequences, hook calls, .call re-dispatch, spread materialisation, optional-chain guards, arrow-body blocks) and the result must equal the input tree exactly, modulo parentheses, literal spelling, x=>E == x=>{return E}, T+=E == T=T+E for a simple T, L.m.call(L,..) == L.m(..) for a literal L. distinct_nontrivial = distinct inputs with >= 1 erased hook site. Workload additions: corpus files with enabled operations spliced onto randomly chosen expression nodes (25 wrappers x every expression slot; only texts V8 still compiles), the syntax zoo with LF/CRLF/CR line endings, a CRLF slice of the corpus. Precondition of erasure: one assignment reaches every use of a temporary (flow analysis of the raw output: no temporary is assigned again - by a nested injected sequence - between its assignment and its use); otherwise replacing the use by the expression of the enclosing sequence is not what flows at run time and the output is reported.',
   assumptions: [
     'acorn 8.16 (ES2025) is the independent parser; inputs it rejects are skipped and counted',
     'comments are not compared (C10 covers comment handling)',
